@@ -21,7 +21,8 @@ def cfgOfJson (j : Json) : Except String Cfg := do
       let vs ← (← b.getObjVal? "vals").getArr?
       let vals ← vs.toList.mapM ratOfJson
       return ({ a := a, vals := vals } : CBox)
-  return { g, G, d0, levels, pos }
+  let fixed := (j.getObjValAs? Bool "fixed").toOption.getD false
+  return { g, G, d0, levels, pos, fixed }
 
 def ratJ (r : Rat) : Json := Json.arr #[toJson r.num, toJson r.den]
 
